@@ -60,6 +60,9 @@ var c06Pipelines = []string{
 	`numbers(6).iir(x->a%2,(x,l)->l+2).merge(numbers(6).combine((p,q)->p+q),(p,q)->p<q).size()`,
 	`numbers(16).map(x->slow(x)+a).multiUse({s:l->l.reduce((p,q)->p+q),c:l->l.combine((p,q)->p*b-q).size(),m:l->l.map(x->slow(x)*a).last()})`,
 	`numbers(16).number((i,x)->i+x+a).multiUse({u:l->l.map(x->slow(x)).combine((p,q)->p+q).sum(),v:l->l.accept(x->slow(x)%2=b%2).size()})`,
+	// multiUse consumers that return lazy lists (forced by multiUse itself, in lock step)
+	`numbers(16).number((i,x)->i+x+a).multiUse({u:l->l.combine((p,q)->p*b-q),v:l->l.combine3((p,q,r)->p+q-r+a),w:l->l.number((i,x)->x-i)})`,
+	`numbers(16).map(x->slow(x)+a).multiUse({u:l->l.iir(x->x,(x,o)->o+x*b),v:l->l.combineN(3,w->w[0]-w[2]),w:l->l.map(x->slow(x)).compact((p,q)->p=q)})`,
 	// failing elements: consumed completely, both must fail
 	`numbers(16).map(x->if slow(x)=14 then throw("e") else x*a).reduce((p,q)->p+q)`,
 	`numbers(16).map(x->slow(x)).map(x->if x=a%16 then throw("e") else x).combine((p,q)->p+q).size()`,
